@@ -2,6 +2,7 @@ package main
 
 import (
 	"bufio"
+	"bytes"
 	"encoding/json"
 	"flag"
 	"fmt"
@@ -373,13 +374,71 @@ func cmdWasm(args []string) {
 			dir = *pdir
 		}
 		res := filepath.Join(*out, "node-"+via+".ndjson")
-		cmd := exec.Command("node", *driver, via, dir, scFile, res)
-		outb, err := cmd.CombinedOutput()
-		if err != nil {
-			fmt.Fprintf(os.Stderr, "node driver (%s) failed: %v\n%s\n", via, err, string(outb))
-			os.Exit(3)
+		os.Remove(res)
+		// A call into the module that never returns blocks the whole Node process. The driver writes one line per
+		// finished call; when the file stops growing the process is killed, the call in progress is recorded as a
+		// hang and a fresh process resumes with the next call (at most four times; what follows stays unanswered).
+		hung := map[int]bool{}
+		start := 0
+		for {
+			cmd := exec.Command("node", *driver, via, dir, scFile, res, fmt.Sprint(start))
+			var outb bytes.Buffer
+			cmd.Stdout, cmd.Stderr = &outb, &outb
+			if err := cmd.Start(); err != nil {
+				fmt.Fprintf(os.Stderr, "node driver (%s) did not start: %v\n", via, err)
+				os.Exit(3)
+			}
+			done := make(chan error, 1)
+			go func() { done <- cmd.Wait() }()
+			var err error
+			killed := false
+			lastSize, lastChange := int64(-1), time.Now()
+		wait:
+			for {
+				select {
+				case err = <-done:
+					break wait
+				case <-time.After(500 * time.Millisecond):
+					var sz int64
+					if st, e := os.Stat(res); e == nil {
+						sz = st.Size()
+					}
+					if sz != lastSize {
+						lastSize, lastChange = sz, time.Now()
+					} else if time.Since(lastChange) > 8*time.Second {
+						cmd.Process.Kill()
+						<-done
+						killed = true
+						break wait
+					}
+				}
+			}
+			if !killed {
+				if err != nil {
+					fmt.Fprintf(os.Stderr, "node driver (%s) failed: %v\n%s\n", via, err, outb.String())
+					os.Exit(3)
+				}
+				break
+			}
+			// lines written so far = calls finished since the file was started: the next one is the one that hangs
+			nDone := 0
+			if data, e := os.ReadFile(res); e == nil {
+				nDone = bytes.Count(data, []byte("\n"))
+			}
+			idx := nDone + len(hung) // hung calls wrote no line
+			if idx >= len(evs) || len(hung) >= 4 {
+				break
+			}
+			hung[evs[idx].ID] = true
+			start = idx + 1
+			if start >= len(evs) {
+				break
+			}
 		}
 		rets := map[int]JRet{}
+		for id := range hung {
+			rets[id] = JRet{T: "hang", S: B{}}
+		}
 		rf, _ := os.Open(res)
 		sc := bufio.NewScanner(rf)
 		sc.Buffer(make([]byte, 1<<20), 1<<24)
